@@ -1,7 +1,8 @@
 import SA.Model.DnsExchange
 import SA.Model.DnsWrites
+import SA.Model.DnsAnswers
 namespace SA.Drv.DnsExchange
 def entries : List (String × (List String → String)) :=
-  [("dnsretry", SA.DnsExchange.handle), ("dnswrites", SA.DnsWrites.handle),
+  [("dnsretry", SA.DnsAnswers.handle), ("dnswrites", SA.DnsWrites.handle),
    ("dnspoll", SA.DnsWrites.handlePoll)]
 end SA.Drv.DnsExchange
